@@ -42,6 +42,11 @@ def primOf (tok : String) : Option GoTy :=
   | "f64" => some (.prim .f64)
   | "bool" => some (.prim .bool)
   | "str" => some (.prim .str)
+  -- hand-written named string types that carry methods (Stringer, error, TextMarshaler, …): their
+  -- Kind is String, so for the serializer they are strings; a named int32 is described by its kind
+  | "nsS" => some (.prim .str) | "nsL" => some (.prim .str) | "nsE" => some (.prim .str)
+  | "nsT" => some (.prim .str) | "nsJ" => some (.prim .str) | "nsF" => some (.prim .str)
+  | "niC" => some (.prim (.int ⟨true, 32⟩))
   | "time" => some (.prim .time)
   | "dur" => some (.prim .dur)
   | "bytes" => some .bytes
